@@ -384,7 +384,7 @@ func (j *quantJudge) genCase(r *gen.RNG, i int) (ref.Bits, int) {
 func runC08(c *Ctx) {
 	c.Parallel("quantise", ref.NearestEven, func(sh *mon.Shard, r *gen.RNG) {
 		j := &quantJudge{ctx: c, sh: sh}
-		n := c.N(30000, 600000)
+		n := c.N(150000, 1500000)
 		for i := 0; i < n; i++ {
 			b, dp := j.genCase(r, i)
 			j.judge(b, dp, "", 0)
